@@ -115,6 +115,17 @@ impl RootBlock {
         }
     }
 
+    /// Keep only the records for which `keep` returns true
+    ///
+    /// The record count of the block header follows, as it does in `add_record`.
+    pub fn retain_records(&mut self, keep: impl FnMut(&RootRecord) -> bool) {
+        self.records.retain(keep);
+        #[allow(clippy::cast_possible_truncation)]
+        {
+            self.header.num_records = self.records.len() as u32;
+        }
+    }
+
     /// Get content flags as `ContentFlags`
     pub fn content_flags(&self) -> ContentFlags {
         ContentFlags::new(self.header.content_flags)
